@@ -25,11 +25,19 @@ ASCII = "abcdefghijklmnopqrstuvwxyzABCDEFGHIJKLMNOPQRSTUVWXYZ0123456789 _-'!"
 HEBREW = "אבגדהוזחטיכלמנסעפצקרשת "
 ACCENT = "éèêëàâäôöùûüçñãõÉÀÖÜßøåÆ"
 FOURBYTE = "😀🏠🔥💧🌡🪟𝔸𐍈"
-ALPHABETS = [ASCII, HEBREW, ACCENT, FOURBYTE, ASCII + HEBREW + ACCENT + FOURBYTE]
+# characters whose Unicode normal forms differ from themselves (combining marks after a base letter, compatibility and
+# presentation forms): a name is a byte string to the device, any "normalisation" on the way changes what was asked for
+NOT_NFC = ["e\u0301", "a\u0308", "o\u0302", "A\u030a", "\u212b", "\u2126", "\ufb2a", "\ufb1d", "\u05e9\u05c1", "n\u0303", "\ufb01", "x", " "]
+ALPHABETS = [ASCII, HEBREW, ACCENT, FOURBYTE, ASCII + HEBREW + ACCENT + FOURBYTE, NOT_NFC]
 
 
 def names(min_chars=0, max_chars=40):
-    return st.sampled_from(ALPHABETS).flatmap(lambda al: st.text(alphabet=al, min_size=min_chars, max_size=max_chars))
+    def of(al):
+        if isinstance(al, list):        # multi-code-point units
+            return st.lists(st.sampled_from(al), min_size=(min_chars + 1) // 2, max_size=max(1, max_chars // 2)).map("".join).filter(
+                lambda s: min_chars <= len(s) <= max_chars)
+        return st.text(alphabet=al, min_size=min_chars, max_size=max_chars)
+    return st.sampled_from(ALPHABETS).flatmap(of)
 
 
 def accepted_name(s):
@@ -37,7 +45,7 @@ def accepted_name(s):
 
 
 accepted_names = names(2, 32).filter(accepted_name) | st.sampled_from(
-    ["ab", "x" * 32, "שלום עולם", "א" * 16, "😀" * 8, "é" * 16, "My Boiler", "a😀"])
+    ["ab", "x" * 32, "שלום עולם", "א" * 16, "😀" * 8, "é" * 16, "My Boiler", "a😀", "Cafe\u0301 boiler", "\u212bngstrom", "\ufb2a\ufb2a"])
 
 minutes_ok = st.one_of(st.integers(0, 71_582_788), st.sampled_from([0, 1, 2, 59, 60, 61, 90, 1440, 71_582_787, 71_582_788]))
 shutdown_ok = st.one_of(st.integers(3600, 86399), st.sampled_from([3600, 3601, 3659, 3660, 86340, 86341, 86399, 7200, 5400]))
